@@ -156,8 +156,12 @@ class B:
 def _pick_crash(r, scale):
     k = r.randint(0, scale)
     c = {'k': k, 'tear': copy.deepcopy(r.choice(TEARS))}
-    if r.random() < 0.3:
+    t = r.random()
+    if t < 0.3:
         c['when'] = 'after'      # the process dies right after that operation instead of right before it
+        c['tear'] = None
+    elif t < 0.42:
+        c['when'] = 'interrupt'  # the process is interrupted by an exception that unwinds the stack, then ends
         c['tear'] = None
     return c
 
